@@ -63,6 +63,17 @@ def scatterAux : List Rat → List Bool → List Rat → List Rat
 def maskScatter (x : List Rat) (m : List Bool) (vals : List Rat) : Option (List Rat) :=
   if m.length = x.length ∧ vals.length = countTrue m then some (scatterAux x m vals) else none
 
+/-- `d[key] += c` for a table read as its value vector and a key read as its position (KeyError when absent: `none`) -/
+def addAt (v : List Rat) (i : Nat) (c : Rat) : Option (List Rat) :=
+  if i < v.length then some (v.set i (v.getD i 0 + c)) else none
+
+/-- `x.clip(lo, hi)` for one entry (`lo ≤ hi`) -/
+def clip (lo hi x : Rat) : Rat := if x < lo then lo else if hi < x then hi else x
+
+/-- `dict(zip(d.keys(), v))`: the new table has the keys of `d`, so `v` must supply exactly one value per key (zip would silently drop
+    the surplus: a shorter table - `none`) -/
+def sameLen (d v : List Rat) : Option (List Rat) := if v.length = d.length then some v else none
+
 /-- `np.isinf(x)`: in the rational reading every value is finite -/
 def isinf (_ : Rat) : Bool := false
 
